@@ -39,7 +39,9 @@ TIERS = {
 }
 PARTS = ["corpus_part", "search", "machine"]
 
-MARK = "ZZHIDDENZZ"
+# marker carried by every value planted under a __name__ key. Assembled at run time: Hypothesis feeds string literals it
+# finds in the source of local modules into its text strategies, and a literal marker turned up as an ordinary string value
+MARK = "".join(["ZZ", "HID", "DEN", "ZZ", "\u2063"])
 
 
 # ------------------------------------------------------------------ expected lexical classes
@@ -114,6 +116,15 @@ def expected_events(d, lenient_lookalikes=False):
         else:
             out.append(e)
     return out
+
+
+def _visible_has(x, needle):
+    if isinstance(x, dict):
+        return any((needle in str(k) and not (str(k).startswith("__") and str(k).endswith("__"))) or
+                   (not (str(k).startswith("__") and str(k).endswith("__")) and _visible_has(v, needle)) for k, v in x.items())
+    if isinstance(x, (list, tuple)):
+        return any(_visible_has(v, needle) for v in x)
+    return isinstance(x, str) and needle in x
 
 
 class Unrepresentable(Exception):
@@ -213,7 +224,7 @@ def check_print(d, o, case, how="dumps", lenient_lookalikes=False):
         text = print_via(d, o, how)
     except Exception as e:
         return [Discrepancy(f"print_raises:{type(e).__name__}", f"{how} raised {type(e).__name__}: {e!s:.120}", case)]
-    if MARK in text:   # every value planted under a __name__ key carries this marker
+    if MARK in text and not _visible_has(d, MARK):   # (a visible value may by chance hold the marker itself)
         return [Discrepancy("hidden_key_printed", f"text contains data of a __name__ key: {text[:200]!r}", case)]
     try:
         ev, _ = reader.events(text)
